@@ -18,7 +18,7 @@ RULE = ("random RLC circuits (2-5 nodes) with mixes of DC, sinusoidal and period
         "frequencies and a non-zero response; distinct by (circuit signature, stratum, number of lines).")
 ASSUMPTIONS = [
     "reference phasor at each frequency from the exact component-level model (C02 oracle; periodic sources via the true Fourier coefficients of their own time function)",
-    "frequency coincidence is judged within the library's default resolution 1e-3; harmonics within 4 ulp of w_max may be in or out",
+    "frequency coincidence is judged within the library's default resolution 1e-3; a harmonic is expected iff k*w0 <= w_max in binary64 arithmetic; a reported harmonic within 4 ulp above w_max is tolerated",
     "sources are ideal (lossy sources are covered at their own frequency by C02)",
 ]
 N_CIRC = {'quick': 1400, 'thorough': 20000}
@@ -65,7 +65,7 @@ def expected_frequencies(cd, w_max):
         if circdesc.is_periodic(c):
             w0 = c['args']['w']
             k = 0
-            while k * w0 <= w_max * (1 + 1e-15):
+            while k * w0 <= w_max:
                 fs.append(k * w0)
                 k += 1
     fs.sort()
@@ -127,7 +127,7 @@ def judge(case, ctx, prefix='C09'):
             break
     for f in exp:
         hits = [w for w in ws if abs(w - f) <= W_RES]
-        if len(hits) == 0 and not borderline(cd, w_max, f):
+        if len(hits) == 0 and not (f > w_max and borderline(cd, w_max, f)):
             ctx.violation(f'{prefix}/frequency-list/missing/{"dc" if f == 0 else "line"}', f'expected frequency {f!r} is not analysed; list {ws!r}, w_max {w_max!r}', {})
             ok = False
     for w in ws:
